@@ -11,6 +11,7 @@ import (
 	"strings"
 
 	gio "github.com/whatap/golib/io"
+	"github.com/whatap/golib/util/hash"
 	"github.com/whatap/golib/util/hmap"
 )
 
@@ -200,6 +201,26 @@ type objAPI[K any] struct {
 	openEntries             func() func() []interface{}
 	dm                      *int
 	toString                func() string
+	// extended API (entry objects, text, enumerators opened at an entry)
+	toFormatString func() string                           // IntKeyLinkedMap
+	entryEq        func(a, b interface{}) (bool, uint)     // a.Equals(b), a.HashCode()
+	hashWant       func(K) (uint, bool)                    // HashCode delegated to the key: what it must be
+	valueIter      func() []interface{}                    // IntKeyLinkedMap.ValueIterator via HasNext / Next / Remove
+	enumFrom       func(e interface{}) []K                 // New<Type>Enumer(parent, e, KEYS) drained
+	toKeySet       func() []K                              // IntKeyLinkedMap.ToKeySet front → back
+}
+
+// findEntry: the live entry object of key k, taken from Entries() (nil: not stored)
+func (a *objAPI[K]) findEntry(k K) interface{} {
+	save := *a.dm
+	*a.dm = 0
+	defer func() { *a.dm = save }()
+	for _, e := range a.entries() {
+		if g, ok := e.(kvGetter[K]); ok && a.kTok(g.GetKey()) == a.kTok(k) {
+			return e
+		}
+	}
+	return nil
 }
 
 type kvGetter[K any] interface {
@@ -266,21 +287,63 @@ func (a *objAPI[K]) inst() *inst {
 					a.sort(func(x, y K) bool { return a.less(y, x) })
 				}
 				return "u"
-			case "TS": // ToString() against the entries' own ToString(), enumerated the HasMoreElements way
-				save := *a.dm
-				*a.dm = 0
-				var parts []string
-				for _, e := range a.entries() {
-					if t, ok := e.(interface{ ToString() string }); ok {
-						parts = append(parts, t.ToString())
+			case "TS": // ToString(): the text the model renders from the dictionary
+				return textTok(a.toString())
+			case "TF":
+				if a.toFormatString != nil {
+					return textTok(a.toFormatString())
+				}
+			case "ESV": // SetValue on the live entry object handed out by Entries()
+				e := a.findEntry(k)
+				if e == nil {
+					return "-"
+				}
+				if sv, ok := e.(interface{ SetValue(interface{}) interface{} }); ok {
+					return objVal(sv.SetValue(boxV(o.v)))
+				}
+				return fmt.Sprintf("?%T", e)
+			case "EQ":
+				if a.entryEq != nil {
+					e1, e2 := a.findEntry(k), a.findEntry(a.toK(o.k2))
+					if e1 == nil || e2 == nil {
+						return "-"
 					}
+					eq, h := a.entryEq(e1, e2)
+					if a.hashWant != nil {
+						if w, ok := a.hashWant(k); ok && w == h {
+							h = 0
+						}
+					}
+					return boolTok(eq) + ":" + strconv.FormatUint(uint64(h), 10)
 				}
-				*a.dm = save
-				want := "{" + strings.Join(parts, ", ") + "}"
-				if got := a.toString(); got != want {
-					return strconv.Itoa(a.size()) + "!ToString=" + got + " want " + want
+			case "VI":
+				if a.valueIter != nil {
+					var toks []string
+					for _, v := range a.valueIter() {
+						toks = append(toks, objVal(v))
+					}
+					return joinToks(toks)
 				}
-				return strconv.Itoa(a.size())
+			case "ENF":
+				if a.enumFrom != nil {
+					e := a.findEntry(k)
+					if e == nil {
+						return "[]"
+					}
+					var toks []string
+					for _, x := range a.enumFrom(e) {
+						toks = append(toks, a.kTok(x))
+					}
+					return joinToks(toks)
+				}
+			case "TKS":
+				if a.toKeySet != nil {
+					var toks []string
+					for _, x := range a.toKeySet() {
+						toks = append(toks, a.kTok(x))
+					}
+					return joinToks(toks)
+				}
 			}
 			return "?unsupported"
 		},
@@ -501,6 +564,11 @@ func newLinkedMap(c ctor) *inst {
 			return func() []interface{} { return drainEnum(en, m.Size(), dm) }
 		},
 		toK: func(k key) hmap.LinkedKey { return &hk{id: k.i, mode: c.hmode} }, kTok: objKeyTok, less: lessObj}
+	a.entryEq = func(x, y interface{}) (bool, uint) {
+		p, q := x.(*hmap.LinkedEntry), y.(*hmap.LinkedEntry)
+		return p.Equals(q), p.HashCode()
+	}
+	a.hashWant = func(k hmap.LinkedKey) (uint, bool) { return k.Hash(), true }
 	return a.inst()
 }
 
@@ -530,6 +598,36 @@ func newIntKeyLinkedMap(c ctor) *inst {
 			return func() []interface{} { return drainEnum(en, m.Size(), dm) }
 		},
 		toK: toI32, kTok: i32Tok, less: lessI32}
+	a.entryEq = func(x, y interface{}) (bool, uint) {
+		p, q := x.(*hmap.IntKeyLinkedEntry), y.(*hmap.IntKeyLinkedEntry)
+		return p.Equals(q), p.HashCode()
+	}
+	a.toFormatString = m.ToFormatString
+	a.valueIter = func() []interface{} { // ValueIterator(), driven with HasNext / Next; Remove() is a no-op
+		en, ok := m.ValueIterator().(*hmap.IntKeyLinkedEnumer)
+		if !ok {
+			return []interface{}{"?ValueIterator type"}
+		}
+		var out []interface{}
+		for i := 0; en.HasNext() && i < m.Size()+enumSlack; i++ {
+			out = append(out, en.Next())
+			en.Remove()
+		}
+		return out
+	}
+	a.enumFrom = func(e interface{}) []int32 {
+		return drainInt(hmap.NewIntKeyLinkedEnumer(m, e.(*hmap.IntKeyLinkedEntry), hmap.ELEMENT_TYPE_KEYS), m.Size(), nil)
+	}
+	a.toKeySet = func() []int32 {
+		var out []int32
+		l := m.ToKeySet()
+		for e := l.Front(); e != nil; e = e.Next() {
+			if k, ok := e.Value.(int32); ok {
+				out = append(out, k)
+			}
+		}
+		return out
+	}
 	it := a.inst()
 	var keptSet *hmap.IntLinkedSet // a result the caller kept unmodified; it must still hold its keys later
 	var keptKeys string
@@ -602,6 +700,10 @@ func newLongKeyLinkedMap(c ctor) *inst {
 			return func() []interface{} { return drainEnum(en, m.Size(), dm) }
 		},
 		toK: toI64, kTok: i64Tok, less: lessI64}
+	a.entryEq = func(x, y interface{}) (bool, uint) {
+		p, q := x.(*hmap.LongKeyLinkedEntry), y.(*hmap.LongKeyLinkedEntry)
+		return p.Equals(q), p.HashCode()
+	}
 	return a.inst()
 }
 
@@ -626,6 +728,11 @@ func newStringKeyLinkedMap(c ctor) *inst {
 			return func() []interface{} { return drainEnum(en, m.Size(), dm) }
 		},
 		toK: toStr, kTok: strTok, less: lessStr}
+	a.entryEq = func(x, y interface{}) (bool, uint) {
+		p, q := x.(*hmap.StringKeyLinkedEntry), y.(*hmap.StringKeyLinkedEntry)
+		return p.Equals(q), p.HashCode()
+	}
+	a.hashWant = func(k string) (uint, bool) { return uint(hash.Hash([]byte(k))), true }
 	return a.inst()
 }
 
@@ -659,6 +766,21 @@ type numAPI[K any, W any] struct {
 	openEntries                       func() func() []interface{}
 	dm                                *int
 	toString                          func() string
+	entryEq                           func(a, b interface{}) (bool, uint) // a.Equals(b), a.HashCode()
+	hashWant                          func(K) (uint, bool)                // HashCode delegated to the key: what it must be
+	enumFrom                          func(e interface{}) []K             // New<Type>Enumer(parent, e, KEYS) drained
+}
+
+func (a *numAPI[K, W]) findEntry(k K) interface{} {
+	save := *a.dm
+	*a.dm = 0
+	defer func() { *a.dm = save }()
+	for _, e := range a.entries() {
+		if g, ok := e.(kwGetter[K, W]); ok && a.kTok(g.GetKey()) == a.kTok(k) {
+			return e
+		}
+	}
+	return nil
 }
 
 type kwGetter[K any, W any] interface {
@@ -738,21 +860,43 @@ func (a *numAPI[K, W]) inst() *inst {
 					a.sort(func(x, y K) bool { return a.less(y, x) })
 				}
 				return "u"
-			case "TS": // ToString() against the entries' own ToString(), enumerated the HasMoreElements way
-				save := *a.dm
-				*a.dm = 0
-				var parts []string
-				for _, e := range a.entries() {
-					if t, ok := e.(interface{ ToString() string }); ok {
-						parts = append(parts, t.ToString())
+			case "TS": // ToString(): the text the model renders from the dictionary
+				return textTok(a.toString())
+			case "ESV": // SetValue on the live entry object handed out by Entries()
+				e := a.findEntry(k)
+				if e == nil {
+					return "-"
+				}
+				if sv, ok := e.(interface{ SetValue(W) W }); ok {
+					return a.wTok(sv.SetValue(w))
+				}
+				return fmt.Sprintf("?%T", e)
+			case "EQ":
+				if a.entryEq != nil {
+					e1, e2 := a.findEntry(k), a.findEntry(a.toK(o.k2))
+					if e1 == nil || e2 == nil {
+						return "-"
 					}
+					eq, h := a.entryEq(e1, e2)
+					if a.hashWant != nil {
+						if w, ok := a.hashWant(k); ok && w == h {
+							h = 0
+						}
+					}
+					return boolTok(eq) + ":" + strconv.FormatUint(uint64(h), 10)
 				}
-				*a.dm = save
-				want := "{" + strings.Join(parts, ", ") + "}"
-				if got := a.toString(); got != want {
-					return strconv.Itoa(a.size()) + "!ToString=" + got + " want " + want
+			case "ENF":
+				if a.enumFrom != nil {
+					e := a.findEntry(k)
+					if e == nil {
+						return "[]"
+					}
+					var toks []string
+					for _, x := range a.enumFrom(e) {
+						toks = append(toks, a.kTok(x))
+					}
+					return joinToks(toks)
 				}
-				return strconv.Itoa(a.size())
 			}
 			return "?unsupported"
 		},
@@ -867,6 +1011,10 @@ func newIntIntLinkedMap(c ctor) *inst {
 			return func() []interface{} { return drainEnum(en, m.Size(), dm) }
 		},
 		toK: toI32, kTok: i32Tok, less: lessI32, toW: w32, wTok: i32Tok}
+	a.entryEq = func(x, y interface{}) (bool, uint) {
+		p, q := x.(*hmap.IntIntLinkedEntry), y.(*hmap.IntIntLinkedEntry)
+		return p.Equals(q), p.HashCode()
+	}
 	it := a.inst()
 	it.toBytes = func() []byte {
 		o := gio.NewDataOutputX()
@@ -902,6 +1050,19 @@ func newLongLongLinkedMap(c ctor) *inst {
 			return func() []interface{} { return drainEnum(en, m.Size(), dm) }
 		},
 		toK: toI64, kTok: i64Tok, less: lessI64, toW: w64, wTok: i64Tok}
+	a.entryEq = func(x, y interface{}) (bool, uint) {
+		p, q := x.(*hmap.LongLongLinkedEntry), y.(*hmap.LongLongLinkedEntry)
+		return p.Equals(q), p.HashCode()
+	}
+	a.enumFrom = func(e interface{}) []int64 { // the exported constructor leaves isKey unset: NextElement hands out the entries
+		var out []int64
+		for _, x := range drainEnum(hmap.NewLongLongLinkedEnumer(m, e.(*hmap.LongLongLinkedEntry), hmap.ELEMENT_TYPE_KEYS), m.Size(), nil) {
+			if g, ok := x.(*hmap.LongLongLinkedEntry); ok {
+				out = append(out, g.GetKey())
+			}
+		}
+		return out
+	}
 	it := a.inst()
 	it.toBytes = func() []byte {
 		o := gio.NewDataOutputX()
@@ -932,6 +1093,10 @@ func newIntFloatLinkedMap(c ctor) *inst {
 			return func() []interface{} { return drainEnum(en, m.Size(), dm) }
 		},
 		toK: toI32, kTok: i32Tok, less: lessI32, toW: wf32, wTok: f32Tok}
+	a.entryEq = func(x, y interface{}) (bool, uint) {
+		p, q := x.(*hmap.IntFloatLinkedEntry), y.(*hmap.IntFloatLinkedEntry)
+		return p.Equals(q), p.HashCode()
+	}
 	it := a.inst()
 	it.toBytes = func() []byte {
 		o := gio.NewDataOutputX()
@@ -962,6 +1127,10 @@ func newLongFloatLinkedMap(c ctor) *inst {
 			return func() []interface{} { return drainEnum(en, m.Size(), dm) }
 		},
 		toK: toI64, kTok: i64Tok, less: lessI64, toW: wf32, wTok: f32Tok}
+	a.entryEq = func(x, y interface{}) (bool, uint) {
+		p, q := x.(*hmap.LongFloatLinkedEntry), y.(*hmap.LongFloatLinkedEntry)
+		return p.Equals(q), p.HashCode()
+	}
 	it := a.inst()
 	it.toBytes = func() []byte {
 		o := gio.NewDataOutputX()
@@ -1006,6 +1175,14 @@ func newStringIntLinkedMap(c ctor) *inst {
 			return func() []interface{} { return drainEnum(en, m.Size(), dm) }
 		},
 		toK: toStr, kTok: strTok, less: lessStr, toW: w32, wTok: i32Tok}
+	a.entryEq = func(x, y interface{}) (bool, uint) {
+		p, q := x.(*hmap.StringIntLinkedEntry), y.(*hmap.StringIntLinkedEntry)
+		return p.Equals(q), p.HashCode()
+	}
+	a.hashWant = func(k string) (uint, bool) { return uint(hash.Hash([]byte(k))), true }
+	a.enumFrom = func(e interface{}) []string {
+		return drainStr(hmap.NewStringIntLinkedEnumer(m, e.(*hmap.StringIntLinkedEntry), hmap.ELEMENT_TYPE_KEYS), m.Size(), nil)
+	}
 	return a.inst()
 }
 
@@ -1043,6 +1220,14 @@ func newStringLongLinkedMap(c ctor) *inst {
 			return func() []interface{} { return drainEnum(en, m.Size(), dm) }
 		},
 		toK: toStr, kTok: strTok, less: lessStr, toW: w64, wTok: i64Tok}
+	a.entryEq = func(x, y interface{}) (bool, uint) {
+		p, q := x.(*hmap.StringLongLinkedEntry), y.(*hmap.StringLongLinkedEntry)
+		return p.Equals(q), p.HashCode()
+	}
+	a.hashWant = func(k string) (uint, bool) { return uint(hash.Hash([]byte(k))), true }
+	a.enumFrom = func(e interface{}) []string {
+		return drainStr(hmap.NewStringLongLinkedEnumer(m, e.(*hmap.StringLongLinkedEntry), hmap.ELEMENT_TYPE_KEYS), m.Size(), nil)
+	}
 	return a.inst()
 }
 
@@ -1068,6 +1253,7 @@ type setAPI[K any] struct {
 	dm                      *int
 	toString                func() string
 	kStr                    func(K) string // how ToString prints a key
+	unipoint                func(K) K      // StringLinkedSet.Unipoint
 }
 
 // setRet renders the result of put/remove on a set: the key itself when the element was present,
@@ -1129,19 +1315,12 @@ func (a *setAPI[K]) inst() *inst {
 					a.sort(func(x, y K) bool { return a.less(y, x) })
 				}
 				return "u"
-			case "TS":
-				save := *a.dm
-				*a.dm = 0
-				var parts []string
-				for _, k := range a.keys() {
-					parts = append(parts, a.kStr(k))
+			case "TS": // ToString(): the text the model renders from the dictionary
+				return textTok(a.toString())
+			case "UP":
+				if a.unipoint != nil {
+					return a.kTok(a.unipoint(k))
 				}
-				*a.dm = save
-				want := "{" + strings.Join(parts, ", ") + "}"
-				if got := a.toString(); got != want {
-					return strconv.Itoa(a.size()) + "!ToString=" + got + " want " + want
-				}
-				return strconv.Itoa(a.size())
 			}
 			return "?unsupported"
 		},
@@ -1284,5 +1463,6 @@ func newStringLinkedSet(c ctor) *inst {
 			}
 			return fmt.Sprintf("?%T", x)
 		}}
+	a.unipoint = m.Unipoint
 	return a.inst()
 }
